@@ -242,7 +242,7 @@ class ControlVariates:
         res = np.empty_like(Y)
         for k, (xx, yy) in enumerate(zip(X.T, Y.T)):
             if isinstance(self.prices[0], Real):  # FIXME: not the most elegant way...
-                prices = self.prices[k]
+                prices = np.array(self.prices)  # one (scalar) price per control variate
             else:
                 prices = np.array([elmt[k] for elmt in self.prices])
             cv_stats = self.helper_compute_coefficients(x=xx.T, y=yy.T, prices=prices)
@@ -280,7 +280,7 @@ class ControlVariates:
             zip(X_fine.T, Y_fine.T, X_coarse.T, Y_coarse.T)
         ):
             if isinstance(self.prices[0], Real):
-                prices = self.prices[k]
+                prices = np.array(self.prices)  # one (scalar) price per control variate
             else:
                 prices = np.array([elmt[k] for elmt in self.prices])
             cv_stats_fine = self.helper_compute_coefficients(
